@@ -428,29 +428,77 @@ class Box:
         return z3.Sum(t) if len(t) > 1 else t[0]
 
 
+GRID = 10**6  # coefficient differences are rounded to 1e-6 of the tolerance
+
+
 def diff_query(sp, lhs, rhs, tol_abs):
     """Solver asserting  exists x in [-1,1]^V : some cell |lhs - rhs| > tol_abs.
-    lhs, rhs: arrays (object or numeric) of equal shape.  Returns
-    (solver, box, nterms) ; nterms == 0 means the forms are identical."""
+    lhs, rhs: arrays (object or numeric) of equal shape.  The coefficient
+    differences are expressed in units of the tolerance and rounded to 1e-6 of
+    it (so that the exact rationals of ~1e-17 rounding residues do not swamp
+    the simplex); the threshold is 1 in those units.  Returns
+    (solver, box, nterms); nterms == 0 means the forms coincide on that grid."""
     L = coeffs(lhs, sp)
     R = coeffs(rhs, sp)
     if L.shape != R.shape:
         raise ValueError("shape mismatch %s vs %s" % (L.shape[:-1], R.shape[:-1]))
-    D = (L - R).reshape(-1, sp.dim)
+    D = (L - R).reshape(-1, sp.dim) / tol_abs
     box = Box(sp)
     disj = []
-    tol = _q(tol_abs)
+    one = z3.RealVal(1)
+    seen = set()
     for row in D:
         for part in (row.real, row.imag):
-            if not part.any():
+            if not np.isfinite(part).all():
+                disj.append(z3.BoolVal(True))
                 continue
-            t = box.term(part)
-            disj.append(t > tol)
-            disj.append(t < -tol)
+            k = np.rint(part * GRID)
+            if not k.any():
+                continue
+            # |sum k_j x_j + k_0| <= sum |k_j| : rows that cannot reach the
+            # threshold are still handed to the solver (it decides), but
+            # identical rows are sent once
+            key = k.tobytes()
+            if key in seen:
+                continue
+            seen.add(key)
+            t = [z3.Q(int(k[0]), GRID)] if k[0] else []
+            for jx in np.nonzero(k[1:])[0]:
+                t.append(z3.Q(int(k[jx + 1]), GRID) * box.v(int(jx) + 1))
+            t = z3.Sum(t) if len(t) > 1 else t[0]
+            disj.append(t > one)
+            disj.append(t < -one)
     s = z3.Solver()
     s.add(box.bounds())
     s.add(z3.Or(disj) if disj else z3.BoolVal(False))
     return s, box, len(disj)
+
+
+def top_row_query(sp, lhs, rhs, tol_abs):
+    """The single cell with the largest coefficient gap, as its own query: a
+    model of it is a model of the full disjunction (used first, because a
+    disjunction of hundreds of violated rows is slow to satisfy)."""
+    L = coeffs(lhs, sp)
+    R = coeffs(rhs, sp)
+    D = (L - R).reshape(-1, sp.dim) / tol_abs
+    parts = np.concatenate([D.real, D.imag], axis=0)
+    parts = np.where(np.isfinite(parts), parts, 1e30)
+    l1 = np.abs(parts).sum(axis=1)
+    i = int(np.argmax(l1))
+    if l1[i] <= 1.0:
+        return None, None
+    k = np.rint(np.clip(parts[i], -1e12, 1e12) * GRID)
+    box = Box(sp)
+    t = [z3.Q(int(k[0]), GRID)] if k[0] else []
+    for jx in np.nonzero(k[1:])[0]:
+        t.append(z3.Q(int(k[jx + 1]), GRID) * box.v(int(jx) + 1))
+    if not t:
+        return None, None
+    t = z3.Sum(t) if len(t) > 1 else t[0]
+    s = z3.Solver()
+    s.add(box.bounds())
+    s.add(z3.Or(t > 1, t < -1))
+    return s, box
 
 
 def model_values(model, box, sp):
